@@ -107,7 +107,10 @@ PLANS = {
         "rule": "one evaluation = (source tree, option subset / cost map, binding, available/unavailable split) with Eval "
                 "run under up to 8 completions of the unavailable variables; judged: Sound (definite TryEval = Eval under "
                 "every completion for which Eval succeeds), AgreeWhenAll, Monotone over the recorded splits, TryEvalBool "
-                "mirrors TryEval; non-trivial = a definite answer while some variable is unavailable",
+                "mirrors TryEval; the splits are realised by the instrumented fetcher and, again, by the library's own contexts "
+                "(NewCtxFromVars with keys 0.. = slice, keys 300.. = map); plus histories of Get/Set/Cached on library contexts "
+                "(one step = one call, stepped through Fetchers.tla); non-trivial = a definite answer while some variable is "
+                "unavailable, or a Set / a first read of a context",
         "sample": sample_try, "assumptions": EVAL_ASSUME,
     },
     "C05": {
@@ -125,8 +128,10 @@ PLANS = {
         "replay_args": ["try", "-for", "C05", "-n", "0", "-progevery", "1"],
         "rule": "one evaluation = (source tree, option subset / cost map, binding, available/unavailable split); judged on "
                 "expressions none of whose sub-expressions fail: Kleene definite => TryEval returns it, Kleene unknown => "
-                "DNE or a definite value (never an error), TryEvalBool = ErrDNE exactly for DNE; non-trivial = Kleene is "
-                "definite while some variable is unavailable",
+                "DNE or a definite value (never an error), TryEvalBool = ErrDNE exactly for DNE; splits realised by the "
+                "instrumented fetcher and by the library's own contexts; plus Get/Set/Cached histories on library contexts "
+                "stepped through Fetchers.tla; non-trivial = Kleene is definite while some variable is unavailable, or a Set / "
+                "a first read of a context",
         "sample": sample_try, "assumptions": EVAL_ASSUME,
     },
     "C12": {
@@ -406,7 +411,7 @@ PLANS = {
 }
 
 ENGINES = [
-    {"name": "eval", "path": "spec/ (Values, Operators, Semantics, Optimizer, Layout, Machine, MCEval, MCFold, MCTry, JudgeEval, JudgeTry) + harness/",
+    {"name": "eval", "path": "spec/ (Values, Operators, Semantics, Optimizer, Layout, Machine, Fetchers, MCEval, MCFold, MCTry, MCFetch, MCEvents, MCReorder, JudgeEval, JudgeTry, JudgeEvents, JudgeReorder) + harness/ (fam_eval, fam_try, fam_fetch, fam_events, fam_reorder)",
      "serves_properties": ["C01", "C02", "C03", "C04", "C05", "C10", "C12", "C16"],
      "kind_free_text": "TLA+ specification of optimizer, layout and the Eval/TryEval stack machines; TLC bounded model checking; "
                        "TLC trace validation of observations recorded by the Go harness from the real code"},
